@@ -50,6 +50,9 @@ theorem tdiv_pos (a k : Int) (hk : 0 < k) :
   have : k.sign = 1 := Int.sign_eq_one_of_pos hk
   split <;> simp [this]
 
+theorem some_ite {α : Type} (c : Prop) [Decidable c] (a b : α) :
+    (if c then some a else some b) = some (if c then a else b) := by split <;> rfl
+
 theorem int_beq (a b : Int) : (a == b) = decide (a = b) := by
   by_cases h : a = b <;> simp [h]
 
